@@ -7,22 +7,25 @@ Open Scope Z_scope.
 Section Who.
   Variable p : program.
 
-  Definition is_alarm (n : nat) : bool := match n_kind (nd p n) with KAlarm => true | _ => false end.
+  (* a scope whose body may run repeatedly: an Alarm (re-arms) or a Macro (called again) *)
+  Definition is_alarm (n : nat) : bool := match n_kind (nd p n) with KAlarm | KMacro _ => true | _ => false end.
   Definition is_blank (n : nat) : bool := match n_kind (nd p n) with KBlank _ => true | _ => false end.
   (* m is an alarm or lies in the body of one *)
   Definition under_alarm (m : nat) : bool :=
     existsb (fun a => is_alarm a && (Nat.eqb a m || memn m (descendants p a))) (seq 0 (length p)).
 
-  Lemma alarm_lt a : n_kind (nd p a) = KAlarm -> (a < length p)%nat.
+  Definition repeats (a : nat) : Prop := n_kind (nd p a) = KAlarm \/ exists nm, n_kind (nd p a) = KMacro nm.
+  Lemma alarm_lt a : repeats a -> (a < length p)%nat.
   Proof.
-    unfold nd. intros H. destruct (Nat.lt_ge_cases a (length p)) as [L|G]; [exact L|].
-    rewrite nth_overflow in H by exact G. discriminate.
+    unfold repeats, nd. intros H. destruct (Nat.lt_ge_cases a (length p)) as [L|G]; [exact L|].
+    rewrite nth_overflow in H by exact G. destruct H as [H|[nm H]]; discriminate.
   Qed.
-  Lemma under_alarm_of a m : n_kind (nd p a) = KAlarm -> (m = a \/ In m (descendants p a)) -> under_alarm m = true.
+  Lemma under_alarm_of a m : repeats a -> (m = a \/ In m (descendants p a)) -> under_alarm m = true.
   Proof.
     intros K H. unfold under_alarm. apply existsb_exists. exists a. split.
     - apply in_seq. pose proof (alarm_lt a K). lia.
-    - unfold is_alarm. rewrite K. cbn [andb]. destruct H as [->|H]; [now rewrite Nat.eqb_refl|].
+    - assert (Ia : is_alarm a = true) by (unfold is_alarm; destruct K as [K|[nm K]]; now rewrite K).
+      rewrite Ia. cbn [andb]. destruct H as [->|H]; [now rewrite Nat.eqb_refl|].
       apply orb_true_iff. right. now apply memn_In.
   Qed.
 
